@@ -11,6 +11,8 @@ case "$VAR" in
   plain) SAN="-O2 -DVERIF_NO_NEW_OVERRIDE" ;;
 esac
 CXXF="-std=c++17 $SAN -DASAM_CMP_VERIF -I$REPO/include -pthread"
-ls "$REPO"/src/*.cpp | xargs -P 16 -I{} sh -c 'g++ '"$CXXF"' -c {} -o '"$OUT/obj_$VAR"'/$(basename {} .cpp).o' 
+# the library objects are compiled as a release library would be (-DNDEBUG), the harness as a client without it: class layouts or
+# inline code in the public headers that depend on such a macro then disagree between the two, as they would for a user
+ls "$REPO"/src/*.cpp | xargs -P 16 -I{} sh -c 'g++ '"$CXXF"' -DNDEBUG -c {} -o '"$OUT/obj_$VAR"'/$(basename {} .cpp).o' 
 [ -f "$OUT/gen_dispatch.inc" ] || cp /verif/harness/gen_dispatch_stub.inc "$OUT/gen_dispatch.inc"
 g++ $CXXF -fno-access-control -I"$OUT" /verif/harness/cmp_harness.cpp "$OUT/obj_$VAR"/*.o -o "$OUT/harness_$VAR"
